@@ -283,8 +283,11 @@ def verify_target(db, reg, key, timeout_ms=20000, want_smt2=False, findings=(), 
             if vc.kind == 'must_fail':
                 if o.get('refuted_once'):
                     continue
-                verdict, model, ms, backend, why = solve_vc(vc.pc, vc.goal, min(timeout_ms, 2000))
-                o['ms'] += ms
+                from . import smt as _smt
+                t_mf = time.time()
+                r_mf, _s = _smt._z3_check(_smt.full_formulas(vc.pc, vc.goal), 1500)
+                verdict = 'unsat' if r_mf == z3.unsat else ('sat' if r_mf == z3.sat else 'unknown')
+                o['ms'] += int((time.time() - t_mf) * 1000)
                 if verdict != 'unsat':
                     o['refuted_once'] = True     # sat, or at least not provable: the false clause is not "proved"
                     o['must_fail_verdict'] = verdict
@@ -320,7 +323,8 @@ def verify_target(db, reg, key, timeout_ms=20000, want_smt2=False, findings=(), 
                     except Exception as e:      # noqa
                         pass
                 if not confirmed:
-                    r2 = smt.solve_full(smt.full_formulas(pc, vc.goal), timeout_ms)
+                    # a quantifier-free instance set is satisfiable: a proof is unlikely; bounded second look
+                    r2 = smt.solve_full(smt.full_formulas(pc, vc.goal), min(timeout_ms, 15000 if tier_quick(timeout_ms) else 120000))
                     verdict, model, backend, why = r2['verdict'], r2['model'], r2['backend'], r2['why']
                     ms += r2['ms']
                     if verdict == 'sat' and model is None:
@@ -374,6 +378,10 @@ def verify_target(db, reg, key, timeout_ms=20000, want_smt2=False, findings=(), 
         res.error = '%s: %s\n%s' % (type(e).__name__, e, traceback.format_exc())
     res.info['wall_s'] = round(time.time() - t_start, 3)
     return res
+
+
+def tier_quick(timeout_ms):
+    return timeout_ms <= 60000
 
 
 def clause_text(c):
